@@ -208,13 +208,21 @@ NeedsOutcome(m) == m.pc = "dl.attempt"
 (*          close (= flush) the files they opened.                          *)
 (* Result: set of [res, exc, fs] the run can end with.                      *)
 (***************************************************************************)
-Leftovers(p, m, kind) ==
-    IF kind = "kill" THEN {[res |-> "crashed", exc |-> "-", fs |-> m.fs]}
-    ELSE IF m.pc \in {"dl.attempt", "dl.body"} THEN {[res |-> "crashed", exc |-> "-", fs |-> [m.fs EXCEPT !.tmp = Absent]]}
-    ELSE IF m.pc \in {"cont.open", "cont.write", "cont.meta"} THEN {[res |-> "raised", exc |-> "LibError", fs |-> m.fs]}
-    ELSE IF m.pc = "off.close" /\ ~AtomicVerifiedTable THEN {[res |-> "crashed", exc |-> "-", fs |-> [m.fs EXCEPT !.off = t, !.newer = TRUE]] :
-                                        t \in {m.fs.off, TableFor(m.fs.doc)}}
-    ELSE {[res |-> "crashed", exc |-> "-", fs |-> m.fs]}
+Flushed(q, mm) ==      \* closing the half-written document flushes what was still buffered: it may reach the next class
+    LET goal == IF mm.pc = "lib.write" THEN LibOut(q.fmt, mm.fs.arch).out ELSE ContOut(q.fmt, mm.fs.arch).out
+    IN {mm.fs} \cup (IF ~AtomicDecompress /\ mm.pc \in {"lib.write", "cont.write"} /\ mm.dout # goal
+                     THEN {[mm.fs EXCEPT !.doc = NextCls(mm.dout)]} ELSE {})
+
+Leftovers(q, mm, kind) ==
+    IF kind = "kill" THEN {[res |-> "crashed", exc |-> "-", fs |-> mm.fs]}
+    ELSE IF mm.pc \in {"dl.attempt", "dl.body"} THEN {[res |-> "crashed", exc |-> "-", fs |-> [mm.fs EXCEPT !.tmp = Absent]]}
+    ELSE IF mm.pc \in {"cont.open", "cont.write", "cont.meta"} THEN {[res |-> "raised", exc |-> "LibError", fs |-> x] : x \in Flushed(q, mm)}
+    ELSE IF mm.pc = "dec.check" /\ Kind(q.fmt) \in {"zip", "tar"}     \* extractall() may still be winding up
+         THEN {[res |-> "raised", exc |-> "LibError", fs |-> mm.fs], [res |-> "crashed", exc |-> "-", fs |-> mm.fs]}
+    ELSE IF mm.pc = "lib.write" THEN {[res |-> "crashed", exc |-> "-", fs |-> x] : x \in Flushed(q, mm)}
+    ELSE IF mm.pc = "off.close" /\ ~AtomicVerifiedTable
+         THEN {[res |-> "crashed", exc |-> "-", fs |-> [mm.fs EXCEPT !.off = t, !.newer = TRUE]] : t \in {mm.fs.off, TableFor(mm.fs.doc)}}
+    ELSE {[res |-> "crashed", exc |-> "-", fs |-> mm.fs]}
 
 (* the next run finds what the previous one left; a temporary file written by it is now a stale one *)
 Settle(fs) == [fs EXCEPT !.tmp = IF @ = "open" THEN "stale" ELSE @]
